@@ -66,11 +66,11 @@ TOOL_FAILURE_PAT = re.compile(
 
 
 def H(harness, oid, what, functions=(), bound="", key=None, timeout=None, tiers=("quick", "thorough"),
-      flags=(), est=10, min_covers=1, stubs=(), replay=True):
+      flags=(), est=10, min_covers=1, stubs=(), replay=True, oracle_scenario=None):
     """Build a harness spec dict (see module docstring)."""
     return dict(harness=harness, oid=oid, what=what, functions=list(functions), bound=bound, key=key or oid,
                 timeout=timeout, tiers=tuple(tiers), flags=list(flags), est=est, min_covers=min_covers,
-                stubs=list(stubs), replay=replay)
+                stubs=list(stubs), replay=replay, oracle_scenario=oracle_scenario)
 
 
 def _timeout_of(spec):
@@ -220,6 +220,21 @@ class _Crate:
             self._native[(profile, replay_bin)] = res
             return res
 
+    def run_scenario(self, args, profiles=("debug", "release"), replay_bin=None):
+        per = {}
+        for prof in profiles:
+            path, err = self.native_bin(prof, replay_bin)
+            if not path:
+                per[prof] = dict(rc=None, out="native build failed: " + err[-400:])
+                continue
+            try:
+                p = subprocess.run([path, "--scenario"] + list(args), stdout=subprocess.PIPE, stderr=subprocess.STDOUT,
+                                   text=True, errors="replace", timeout=120, env=_env())
+                per[prof] = dict(rc=p.returncode, out=p.stdout[-1200:])
+            except subprocess.TimeoutExpired:
+                per[prof] = dict(rc=None, out="native replay timed out")
+        return per
+
     def run_native(self, harness, vals, profiles=("debug", "release"), replay_bin=None):
         """-> (reproduced: bool, detail: str, per_profile: dict)"""
         per = {}
@@ -283,6 +298,20 @@ def _decide(run, crate, spec, ob, slot):
     fdesc = "; ".join(f"{c['description']} @ {c['file']}:{c['line']}" for c in genuine)[:400]
     if not spec.get("replay", True):
         return ob.set(core.INCONCLUSIVE, f"FAILED ({fdesc}) but no native replay exists for this harness", solver="cbmc+cadical", solver_s=vt)
+    if spec.get("oracle_scenario"):
+        # the counterexample is a path through nondeterministic FFI oracles: its concrete witness is searched
+        # natively by the named scenario, which then runs the REAL decoder on it (rc 1 = the real code accepts)
+        per = crate.run_scenario(spec["oracle_scenario"])
+        payload = dict(engine="K", engine_part="K", crate=crate.rel_dir, harness=spec["harness"], scenario=spec["oracle_scenario"],
+                       failed_checks=genuine, stubs=stubs, native=per, replay_bin=spec.get("replay_bin") or crate.replay_bin,
+                       how="check <ID> --replay <this file>: native run of `replay --scenario ...` (witness search + real decoder)")
+        rep = [k for k, v in per.items() if v["rc"] == 1]
+        detail = "; ".join(f"{k}: rc={v['rc']} {v['out'].strip().splitlines()[-1] if v['out'].strip() else ''}" for k, v in per.items())
+        if rep:
+            path = run.write_replay(ob, payload)
+            return ob.set(core.VIOLATION, f"{fdesc}; oracle path concretised natively ({detail})", solver="cbmc+cadical", solver_s=vt, replay=path)
+        return ob.set(core.INCONCLUSIVE, f"FAILED ({fdesc}) but the oracle path could not be concretised natively ({detail})",
+                      solver="cbmc+cadical", solver_s=vt)
     # obtain the concrete counterexample
     rc2, out2, dt2 = crate.kani(slot, spec["harness"], list(spec.get("flags", [])) + [
         "-Z", "concrete-playback", "--concrete-playback=print"], max(tmo, 300) * 2, tag=".playback")
@@ -398,7 +427,12 @@ def replay(payload):
     if payload.get("engine") != "K" or "harness" not in payload:
         return None
     crate = _Crate(payload["crate"], None, (), payload.get("replay_bin", "replay"), 12 * 1024 * 1024)
-    reproduced, detail, per = crate.run_native(payload["harness"], payload["concrete_vals"], replay_bin=payload.get("replay_bin"))
+    if payload.get("scenario"):
+        per = crate.run_scenario(payload["scenario"], replay_bin=payload.get("replay_bin"))
+        reproduced = any(v["rc"] == 1 for v in per.values())
+        detail = "scenario " + " ".join(payload["scenario"])
+    else:
+        reproduced, detail, per = crate.run_native(payload["harness"], payload["concrete_vals"], replay_bin=payload.get("replay_bin"))
     for k, v in per.items():
         print(f"--- native {k}: rc={v['rc']}\n{v['out']}")
     print("reproduced" if reproduced else "NOT reproduced", "-", detail)
